@@ -2,7 +2,22 @@
 """Regenerates MANIFEST.json from the table below. Run after changing claims."""
 import json, subprocess
 
+LOOPNOTE = 'Trusts: A1 token contract (lower-case tag names, exact serialiser/tokeniser round trip), sanitizeAttrs replaced by an arbitrary-result stub, policy tables of at most 2 entries per kind (an upper bound that is general for one step: one step looks up one name per table), z3 5.1 / cvc5 1.0, go/ssa semantics as interpreted.'
+
 CLAIMED = {
+ "C01": dict(
+   text="Inductive step decided by SMT: the body of sanitize's token loop is executed symbolically from go/ssa with the loop-carried state havocked, an arbitrary token and a fully symbolic policy (tables, patterns as uninterpreted predicates, switches); the query 'some write is not an allowlisted tag / allowed comment / escaped text / strip space' must be unsat. Covers token histories of any length. A sat answer is turned into a concrete policy+HTML by unrolling the extracted step relation from the initial state and replayed through Policy.Sanitize.",
+   note=LOOPNOTE, technique="symbolic execution of go/ssa + SMT (induction over the token loop, k-unrolling for witnesses)", design="5 C01"),
+ "C05": dict(
+   text="Two SMT-decided step queries over the extracted loop relation, for every policy with AllowUnsafe off (including policies naming or pattern-matching script/style): (i) from an arbitrary loop state no tag token named script/style is written; (ii) from an arbitrary state, after a start or self-closing script/style tag the following text token causes no write. Unbounded history; witnesses by unrolling + native replay.",
+   note=LOOPNOTE, technique="symbolic execution of go/ssa + SMT (1- and 2-step induction over the token loop)", design="5 C05"),
+ "C06": dict(
+   text="Induction with invariant (skipElementContent=false, mostRecentlyStartedToken not script/style) over the extracted step relation: every text token is written exactly once as its escaped serialisation, every tag token writes either itself, or exactly one space iff space insertion is on, comments/doctypes never add text; invariant preserved. Decided by SMT for all policies of the statement's class.",
+   note=LOOPNOTE, technique="symbolic execution of go/ssa + SMT (inductive invariant over the token loop)", design="5 C06"),
+ "C16": dict(
+   text="Fault-injecting symbolic writer/reader: every write call may fail, the reader may fail with EOF or another error. SMT decides, from an arbitrary loop state, that a failed write or non-EOF reader error makes sanitize return a non-nil error immediately (no later write), and that sanitizeWithBuff returns an empty buffer on a reader error; written strings are checked not to depend on earlier write results (prefix property by induction).",
+   note=LOOPNOTE, technique="symbolic execution of go/ssa with nondeterministic I/O stubs + SMT", design="5 C16"),
+
  "C19": dict(
    text="Bounded-in-alphabet, unbounded-in-length decision by string solver: each exported pattern is read from the heap produced by symbolically executing the package initialiser, translated to a regular language with Go's search semantics and compared with a hand-written reference language and alphabet (L(p) within Ref, L(p) within Alphabet*, documented examples in L(p)). unsat = holds for every 7-bit ASCII string of any length.",
    note="Trusts: regexp/syntax parse tree semantics as translated (validated per run against the real MatchString on solver-chosen members/non-members); z3 5.1/cvc5 1.0 (both must not contradict); ASCII domain (non-ASCII input outside the claim).",
